@@ -852,10 +852,18 @@ func genSubPic(t *rapid.T, label string) subPic {
 	switch rapid.IntRange(0, 9).Draw(t, label+"Kind") {
 	case 0, 1:
 		s.Pct = "%"
-		s.Suffix = "%" + s.Suffix
+		if rapid.IntRange(0, 2).Draw(t, label+"PctInPrefix") == 0 {
+			s.Prefix += "%" // the sign may stand before the digits as well
+		} else {
+			s.Suffix = "%" + s.Suffix
+		}
 	case 2:
 		s.Pct = "‰"
-		s.Suffix += "‰"
+		if rapid.IntRange(0, 2).Draw(t, label+"PmInPrefix") == 0 {
+			s.Prefix = "‰" + s.Prefix
+		} else {
+			s.Suffix += "‰"
+		}
 	case 3, 4:
 		// exponent picture: no grouping separators
 		s.Int = strings.ReplaceAll(s.Int, ",", "")
@@ -927,7 +935,11 @@ func TestC18_FormatNumber(t *testing.T) {
 		}
 		rec.Exhaustive("one_invalid_sub_picture", nsub)
 	}
+	var hg hangGuard
 	rapidRun(t, rec, 40000, 500000, func(rt *rapid.T) {
+		if hg.tripped() {
+			return
+		}
 		c := fmtCase{Pos: genSubPic(rt, "pos")}
 		if rapid.IntRange(0, 3).Draw(rt, "second") == 0 {
 			n := genSubPic(rt, "neg")
@@ -975,8 +987,6 @@ func TestC18_FormatNumber(t *testing.T) {
 		if kind == "inconclusive" {
 			rec.Inconclusive()
 		}
-		if m != "" && rec.Fail(c, m) {
-			rt.Fatalf("%s", m)
-		}
+		hg.fail(rt, rec, c, m, "")
 	})
 }
